@@ -7,6 +7,9 @@
 // optional-optional / optional-nullopt / optional-value and variant-variant forms; besides the results, the number
 // of calls of PO's <, <=, >, >= is compared (a relation derived from another operator shows up there even for
 // ordered values).  expected has no relational operators in tetl.
+// Third part ("mixed" cells): optional<T> against optional<U> / U / T with T != U and the values where the usual
+// arithmetic conversions bite: signed/unsigned of equal and different width (negative values, values above the signed
+// maximum), integer/floating (fractions, 2^53+1), char/int.  std applies the builtin operator to the two payloads.
 // Second part ("self" cells): the SAME object on both sides of every relation (optional, optional<T&>, variant), the
 // optional compared with its own contained object, and <=> where both libraries provide it, for payloads whose
 // comparisons are not reflexive / not consistent (NaN, PO's unordered value, `Weird`: == and != both false, < and >
@@ -308,8 +311,117 @@ void var_self_cells(char const* subj)
     }
 }
 
+// ---------------------------------------------------------------- mixed payload types
+template <typename T>
+struct Vals;
+template <>
+struct Vals<int> {
+    static constexpr int v[] = {-1, 0, 1, -2147483647 - 1, 2147483647};
+};
+template <>
+struct Vals<unsigned> {
+    static constexpr unsigned v[] = {0U, 1U, 2147483647U, 2147483648U, 4294967295U};
+};
+template <>
+struct Vals<long long> {
+    static constexpr long long v[] = {-1LL, 0LL, 1LL, -9223372036854775807LL - 1, 9223372036854775807LL, 9007199254740993LL};
+};
+template <>
+struct Vals<unsigned long long> {
+    static constexpr unsigned long long v[] = {0ULL, 1ULL, 9223372036854775807ULL, 9223372036854775808ULL, 18446744073709551615ULL};
+};
+template <>
+struct Vals<long> {
+    static constexpr long v[] = {-1L, 0L, 1L, 4294967295L, -4294967296L};
+};
+template <>
+struct Vals<unsigned long> {
+    static constexpr unsigned long v[] = {0UL, 1UL, 4294967295UL, 18446744073709551615UL};
+};
+template <>
+struct Vals<short> {
+    static constexpr short v[] = {-1, 0, 1, -32768, 32767};
+};
+template <>
+struct Vals<unsigned short> {
+    static constexpr unsigned short v[] = {0, 1, 32767, 32768, 65535};
+};
+template <>
+struct Vals<signed char> {
+    static constexpr signed char v[] = {-1, 0, 1, -128, 127};
+};
+template <>
+struct Vals<unsigned char> {
+    static constexpr unsigned char v[] = {0, 1, 127, 128, 255};
+};
+template <>
+struct Vals<char> {
+    static constexpr char v[] = {'a', '\0', static_cast<char>(0xE9)};
+};
+template <>
+struct Vals<double> {
+    static constexpr double v[] = {-0.5, 0.0, 0.5, 1.0, 2.5, 9007199254740992.0, 4294967295.5, -1.0};
+};
+template <>
+struct Vals<float> {
+    static constexpr float v[] = {-0.5F, 0.5F, 1.0F, 16777216.0F, 4294967296.0F};
+};
+template <typename T>
+constexpr std::size_t nvals = sizeof(Vals<T>::v) / sizeof(Vals<T>::v[0]);
+
+template <typename NS, typename T, typename U>
+void mixed_world(Obs& r, std::size_t ia, std::size_t ib) // index 0 = empty, k+1 = value k
+{
+    using OA   = typename NS::template optional<T>;
+    using OB   = typename NS::template optional<U>;
+    OA const a = ia ? OA(Vals<T>::v[ia - 1]) : OA();
+    OB const b = ib ? OB(Vals<U>::v[ib - 1]) : OB();
+    rel6(r, a, b); // optional<T> vs optional<U>, both orders
+    if (ib != 0) {
+        U const u = Vals<U>::v[ib - 1];
+        rel6(r, a, u); // optional<T> vs U value, both orders
+    }
+    if (ia != 0) {
+        T const t = Vals<T>::v[ia - 1];
+        rel6(r, b, t); // optional<U> vs T value, both orders
+    }
+}
+template <typename T, typename U>
+void mixed_cells(char const* tname, char const* uname)
+{
+    char subj[64], op[96];
+    std::snprintf(subj, sizeof subj, "optional<%s>", tname);
+    std::snprintf(op, sizeof op, "relational(optional<%s>, optional<%s> / %s value)", tname, uname, uname);
+    for (std::size_t ia = 0; ia <= nvals<T>; ++ia) {
+        for (std::size_t ib = 0; ib <= nvals<U>; ++ib) {
+            char sit[64];
+            std::snprintf(sit, sizeof sit, "a-%s,b-%s", ia ? "engaged" : "empty", ib ? "engaged" : "empty");
+            vf::crumb(subj, op, sit, "a=#%zu b=#%zu (0 = empty, k+1 = k-th boundary value of the type)", ia, ib);
+            Obs so, eo;
+            mixed_world<Std, T, U>(so, ia, ib);
+            mixed_world<Etl, T, U>(eo, ia, ib);
+            vf::cover("relations between optionals of different payload types", vf::mix(vf::mix(vf::fnv(tname), vf::fnv(uname)), ia * 16 + ib), true);
+            compare(eo, so);
+        }
+    }
+}
+
 void run_all()
 {
+    mixed_cells<int, unsigned>("int", "unsigned");
+    mixed_cells<unsigned, int>("unsigned", "int");
+    mixed_cells<long long, unsigned long long>("long long", "unsigned long long");
+    mixed_cells<int, unsigned long>("int", "unsigned long");
+    mixed_cells<long, unsigned>("long", "unsigned");
+    mixed_cells<short, unsigned short>("short", "unsigned short");
+    mixed_cells<signed char, unsigned char>("signed char", "unsigned char");
+    mixed_cells<short, unsigned>("short", "unsigned");
+    mixed_cells<int, double>("int", "double");
+    mixed_cells<double, long long>("double", "long long");
+    mixed_cells<unsigned, float>("unsigned", "float");
+    mixed_cells<char, int>("char", "int");
+    mixed_cells<unsigned char, int>("unsigned char", "int");
+    mixed_cells<unsigned long long, double>("unsigned long long", "double");
     opt_cells<double, double>("optional<double>", "optional<double>");
     opt_cells<double, float>("optional<double>", "optional<float>");
     opt_cells<double, int>("optional<double>", "optional<int>");
